@@ -169,6 +169,12 @@ func (e *Engine) callMods(c *ssa.CallCommon, ms *ModSet, visiting map[*ssa.Funct
 		}
 	}
 	if fn == nil {
+		// call through a local variable that is assigned exactly one closure
+		if mc := singleClosure(c.Value); mc != nil {
+			fn = mc.Fn.(*ssa.Function)
+		}
+	}
+	if fn == nil {
 		ms.all = true
 		return
 	}
@@ -198,7 +204,7 @@ func (e *Engine) callMods(c *ssa.CallCommon, ms *ModSet, visiting map[*ssa.Funct
 
 // modName maps a name in a "modifies" clause to a heap id.
 func (e *Engine) modName(n string) string {
-	if strings.Contains(n, ":") {
+	if strings.Contains(n, ":") || n == allocHeap {
 		return n
 	}
 	if _, ok := e.ghosts[n]; ok {
@@ -224,9 +230,18 @@ func (e *Engine) modset(fn *ssa.Function, visiting map[*ssa.Function]bool) *ModS
 			e.instrMods(in, ms, visiting)
 		}
 	}
-	for _, af := range fn.AnonFuncs {
-		// closures created here may run on behalf of this function (defer, direct call, callbacks)
-		ms.union(e.modset(af, visiting))
+	// closures created here run on behalf of this function only if they are called, deferred or passed to a callee;
+	// closures that are merely stored or returned are accounted for where they are called.
+	for _, b := range fn.Blocks {
+		for _, in := range b.Instrs {
+			mc, ok := in.(*ssa.MakeClosure)
+			if !ok {
+				continue
+			}
+			if closureRunsHere(mc) {
+				ms.union(e.modset(mc.Fn.(*ssa.Function), visiting))
+			}
+		}
 	}
 	delete(visiting, fn)
 	if len(visiting) == 0 {
@@ -893,6 +908,15 @@ func (e *Engine) encodeAddr(s *State, a *Addr) string {
 		loc := s.newLoc("esc")
 		ty := s.cellTy[a.Cell]
 		cv := s.cells[a.Cell]
+		// mutexes of a newly allocated object are not held
+		if st, ok := ty.Underlying().(*types.Struct); ok {
+			for i := 0; i < st.NumFields(); i++ {
+				if typeKey(st.Field(i).Type()) == "sync.Mutex" {
+					e.needFaddr()
+					s.assume(not(s.ghostRead(s.ghost("held"), fmt.Sprintf("(faddr %s %d)", loc, i))))
+				}
+			}
+		}
 		s.setPromoted(a.Cell, loc)
 		obj := &Addr{Kind: AObj, Loc: loc, RootTy: ty}
 		if cv.T != "" || cv.Addr != nil || cv.Clo != nil {
@@ -971,4 +995,71 @@ func (e *Engine) needWin() {
 	ax("win_at", "(forall ((a (Array Int Int)) (o Int) (n Int) (i Int)) (! (=> (and (<= 0 i) (< i n)) (= (bat (win a o n) i) (select a (+ o i)))) :pattern ((bat (win a o n) i))))")
 	ax("win_split", "(forall ((a (Array Int Int)) (o Int) (n Int) (k Int)) (! (=> (and (<= 0 k) (<= k n)) (= (btake (win a o n) k) (win a o k))) :pattern ((btake (win a o n) k))))")
 	ax("win_drop", "(forall ((a (Array Int Int)) (o Int) (n Int) (k Int)) (! (=> (and (<= 0 k) (<= k n)) (= (bdrop (win a o n) k) (win a (+ o k) (- n k)))) :pattern ((bdrop (win a o n) k))))")
+}
+
+// singleClosure resolves a call value that is a load of a local variable assigned exactly once with a closure.
+func singleClosure(v ssa.Value) *ssa.MakeClosure {
+	u, ok := v.(*ssa.UnOp)
+	if !ok {
+		return nil
+	}
+	al, ok := u.X.(*ssa.Alloc)
+	if !ok {
+		return nil
+	}
+	var mc *ssa.MakeClosure
+	n := 0
+	for _, r := range *al.Referrers() {
+		if s, ok := r.(*ssa.Store); ok && s.Addr == al {
+			n++
+			mc, _ = s.Val.(*ssa.MakeClosure)
+		}
+	}
+	if n == 1 {
+		return mc
+	}
+	return nil
+}
+
+// closureRunsHere: the closure value is called, deferred or handed to a callee as an argument (possibly via a local variable).
+func closureRunsHere(mc *ssa.MakeClosure) bool {
+	var uses func(v ssa.Value, depth int) bool
+	uses = func(v ssa.Value, depth int) bool {
+		if v.Referrers() == nil || depth > 3 {
+			return true
+		}
+		for _, r := range *v.Referrers() {
+			switch r := r.(type) {
+			case *ssa.Call:
+				return true
+			case *ssa.Defer:
+				return true
+			case *ssa.Go:
+				// runs in another goroutine: thread-modular
+			case *ssa.Store:
+				if al, ok := r.Addr.(*ssa.Alloc); ok && r.Val == v {
+					// stored in a local: look at loads of that local
+					for _, r2 := range *al.Referrers() {
+						if u, ok := r2.(*ssa.UnOp); ok {
+							if uses(u, depth+1) {
+								return true
+							}
+						}
+					}
+				}
+				// stored into a field / heap: runs elsewhere
+			case *ssa.MakeInterface, *ssa.ChangeType:
+				if uses(r.(ssa.Value), depth+1) {
+					return true
+				}
+			case *ssa.Return:
+				// returned: runs in the caller
+			case *ssa.DebugRef:
+			default:
+				_ = r
+			}
+		}
+		return false
+	}
+	return uses(mc, 0)
 }
